@@ -266,4 +266,137 @@ theorem copyNamed_exact_ok (hash : Bytes → Digest) (st : FileSt) (f : Bytes) :
       have hf : f ≠ [] := by intro e; apply hz; simp [e]
       simp [copyLoop, hf]
 
+/-! ## concurrent writers whose sources all deliver the true content -/
+
+/-- a source that delivers exactly `content` (any chunking, empty reads allowed) and then EOF -/
+def GoodScript (content : Bytes) (s : Script) : Prop := s.chunks.flatten = content ∧ s.fin = .eof
+
+/-- the rest of a good writer's effect list: sequential writes of `content`'s own bytes from `off` to the
+    end, then `close` -/
+inductive GoodWrites (content : Bytes) : Nat → List Eff → Prop
+  | fin : GoodWrites content content.length [.close]
+  | write (off : Nat) (c : Bytes) (rest : List Eff) :
+      c = (content.drop off).take c.length → off + c.length ≤ content.length →
+      GoodWrites content (off + c.length) rest → GoodWrites content off (.pwrite off c :: rest)
+
+theorem copyLoop_good (hash : Bytes → Digest) (d : Digest) (content : Bytes) (hh : hash content = d) :
+    ∀ (chunks : List Bytes) (seen : Bytes), seen ++ chunks.flatten = content →
+      (copyLoop hash d content.length 0 seen chunks .eof).2 = .ok ∧
+      GoodWrites content seen.length ((copyLoop hash d content.length 0 seen chunks .eof).1 ++ [.close]) := by
+  intro chunks
+  induction chunks with
+  | nil =>
+    intro seen h
+    simp only [List.flatten_nil, List.append_nil] at h
+    subst h
+    simp only [copyLoop, Nat.lt_irrefl, if_false, List.nil_append, true_and]
+    exact GoodWrites.fin
+  | cons c cs ih =>
+    intro seen h
+    unfold copyLoop
+    split
+    · next hc => subst hc; exact ih seen (by simpa using h)
+    · have hlen : seen.length + c.length + cs.flatten.length = content.length := by
+        rw [← h]; simp [Nat.add_assoc]
+      have h' : (seen ++ c) ++ cs.flatten = content := by rw [← h]; simp
+      split
+      · next hu =>
+        exfalso
+        apply hu.2
+        have : cs.flatten = [] := List.eq_nil_of_length_eq_zero (by omega)
+        rw [this, List.append_nil] at h'
+        rw [h']; exact hh
+      · split
+        · next he => omega
+        · have := ih (seen ++ c) h'
+          refine ⟨this.1, ?_⟩
+          simp only [Nat.zero_add, List.cons_append]
+          apply GoodWrites.write seen.length c _ _ (by omega)
+          · simpa using this.2
+          · rw [← h]; simp
+
+theorem afterStat_good (hash : Bytes → Digest) (d : Digest) (content : Bytes) (hh : hash content = d)
+    (hsz : content.length ≠ 0) (trunc : Bool) (s : Script) (hs : GoodScript content s) :
+    ∃ es, afterStat hash trunc d content.length s = (.openCreate trunc :: es, .ok) ∧ GoodWrites content 0 es := by
+  obtain ⟨hf, hfin⟩ := hs
+  have := copyLoop_good hash d content hh s.chunks [] (by simpa using hf)
+  rw [← hfin] at this
+  refine ⟨(copyLoop hash d content.length 0 [] s.chunks s.fin).1 ++ [.close], ?_, by simpa using this.2⟩
+  unfold afterStat
+  simp only [hsz, if_false, this.1, List.cons_append]
+
+/-- the file is `content`'s first `N` bytes followed by leftovers, and reaches full size only as `content` -/
+def FileB (content : Bytes) (file : FileSt) (N : Nat) : Prop :=
+  match file with
+  | none => N = 0
+  | some f => ∃ rest, f = content.take N ++ rest ∧ N + rest.length ≤ content.length ∧
+      (N + rest.length = content.length → N = content.length)
+
+def WOK (content : Bytes) (file : FileSt) (N : Nat) : W → Prop
+  | .init s => GoodScript content s
+  | .running es _ =>
+      (∃ es', es = .openCreate false :: es' ∧ GoodWrites content 0 es') ∨
+      (file ≠ none ∧ ∃ off, off ≤ N ∧ GoodWrites content off es) ∨ es = []
+  | .done _ => True
+  | .dead => True
+
+theorem WOK_mono (content : Bytes) (file file' : FileSt) (N N' : Nat) (w : W)
+    (hf : file ≠ none → file' ≠ none) (hN : N ≤ N') (h : WOK content file N w) : WOK content file' N' w := by
+  cases w with
+  | init s => exact h
+  | running es r =>
+    rcases h with h | ⟨hne, off, ho, hg⟩ | h
+    · exact Or.inl h
+    · exact Or.inr (Or.inl ⟨hf hne, off, by omega, hg⟩)
+    · exact Or.inr (Or.inr h)
+  | done r => trivial
+  | dead => trivial
+
+theorem pwriteAt_same (f c : Bytes) (off : Nat) (h : (f.drop off).take c.length = c)
+    (hl : off + c.length ≤ f.length) : pwriteAt f off c = f := by
+  unfold pwriteAt
+  split
+  · rfl
+  · have h0 : off - f.length = 0 := by omega
+    simp only [h0, zeros, List.replicate_zero, List.append_nil]
+    have h2 : f.drop (off + c.length) = (f.drop off).drop c.length := by simp [List.drop_drop]
+    conv => lhs; rw [h2]; arg 1; arg 2; rw [← h]
+    rw [List.append_assoc, List.take_append_drop, List.take_append_drop]
+
+/-- writing `content`'s own bytes at an offset inside the already-correct prefix keeps the file shape and can
+    only extend the correct prefix -/
+theorem pwrite_good (content f c : Bytes) (N off : Nat) (hN : N ≤ content.length)
+    (hf : FileB content (some f) N) (ho : off ≤ N)
+    (hc : c = (content.drop off).take c.length) (hl : off + c.length ≤ content.length) :
+    FileB content (some (pwriteAt f off c)) (max N (off + c.length)) := by
+  obtain ⟨rest, rfl, hr1, hr2⟩ := hf
+  have htl : (content.take N).length = N := by simp; omega
+  by_cases hcase : off + c.length ≤ N
+  · -- overwrite inside the correct prefix: nothing changes
+    have hmax : max N (off + c.length) = N := by omega
+    rw [hmax]
+    have : pwriteAt (content.take N ++ rest) off c = content.take N ++ rest := by
+      apply pwriteAt_same
+      · rw [List.drop_append_of_le_length (by omega), List.take_append_of_le_length (by simp; omega)]
+        rw [List.drop_take, List.take_take]
+        rw [show min c.length (N - off) = c.length by omega]
+        exact hc.symm
+      · simp; omega
+    rw [this]
+    exact ⟨rest, rfl, hr1, hr2⟩
+  · have hmax : max N (off + c.length) = off + c.length := by omega
+    rw [hmax]
+    have hcne : c ≠ [] := by intro e; subst e; simp at hcase; omega
+    refine ⟨rest.drop (off + c.length - N), ?_, by simp; omega, by simp; omega⟩
+    unfold pwriteAt
+    simp only [hcne, if_false]
+    have h0 : off - (content.take N ++ rest).length = 0 := by simp; omega
+    simp only [h0, zeros, List.replicate_zero, List.append_nil]
+    rw [List.take_append_of_le_length (by omega), List.take_take, show min off N = off by omega]
+    rw [List.drop_append, htl, List.drop_eq_nil_of_le (by omega : (content.take N).length ≤ off + c.length),
+      List.nil_append]
+    rw [List.take_add]
+    congr 1
+    rw [← hc]
+
 end OllamaVerif.BlobCache
